@@ -221,7 +221,9 @@ func OracleC18(tr *Trace) Verdict {
 	startRet := map[int][]int{}
 	for _, a := range tr.APIs {
 		if a.Call == "Start" && a.Err == "" && a.RetSeq >= 0 {
-			startRet[a.Obj] = append(startRet[a.Obj], a.CallSeq)
+			// (the point from which the state is CANDIDATE is the call's return: before that the call may still be
+			// shutting down a previous run whose context was cancelled, recording that run's last transition)
+			startRet[a.Obj] = append(startRet[a.Obj], a.RetSeq)
 		}
 	}
 	for _, m := range tr.Mets {
